@@ -50,8 +50,11 @@ type Input struct {
 	Op      string   `json:"op,omitempty"`       // arithmetic op line (Kind arith)
 	MustErr bool     `json:"must_err,omitempty"` // repaired defect: opening MUST fail with an error
 	MustOK  bool     `json:"must_ok,omitempty"`  // well-formed input: opening must succeed
-	Suspect string   `json:"suspect,omitempty"`  // labelled stream of candidate findings
-	Note    string   `json:"note,omitempty"`
+	// MustErrDB: the bolt store must reject it as well (it has its own copy of the checks)
+	MustErrDB bool   `json:"must_err_db,omitempty"`
+	Suspect   string `json:"suspect,omitempty"` // labelled stream of candidate findings
+	Note      string `json:"note,omitempty"`
+	TOC       string `json:"toc,omitempty"` // the hostile TOC JSON wrapped into Data (readable form, for reports)
 }
 
 // Rec is the child-side recorder of one input.
@@ -528,8 +531,15 @@ func describe(in *Input) string {
 	if len(in.Prio) > 0 {
 		s += fmt.Sprintf(" prio=%q", in.Prio)
 	}
+	if in.TOC != "" {
+		t := in.TOC
+		if len(t) > 1600 {
+			t = t[:1600] + fmt.Sprintf("...(%d bytes)", len(in.TOC))
+		}
+		s += " toc=" + t
+	}
 	if len(in.Data) > 0 {
-		s += " data=" + hexOf(in.Data, 1500)
+		s += " data=" + hexOf(in.Data, 6000)
 	}
 	if len(in.ExtTOC) > 0 {
 		s += " exttoc=" + hexOf(in.ExtTOC, 600)
@@ -780,7 +790,8 @@ func Run(out *verifutil.Out, inputs []Input, cfg Config) Summary {
 		}
 		if in.MustErr {
 			for _, x := range r.results {
-				if (x[0] == "open" || x[0] == "mem" || x[0] == "build.prio" || strings.HasPrefix(x[0], "footer")) && x[1] == "ok" {
+				if (x[0] == "open" || x[0] == "mem" || x[0] == "build.prio" || strings.HasPrefix(x[0], "footer") ||
+					(x[0] == "db" && in.MustErrDB)) && x[1] == "ok" {
 					out.Fail("repaired-input-accepted:"+in.Class, fmt.Sprintf("target %s accepted an input that must be rejected; %s", x[0], describe(in)))
 				}
 			}
